@@ -1,5 +1,5 @@
 #!/bin/bash
-# Parallel version of run_seeded.sh: tools/run_seeded_par.sh [jobs] ; ONLY=<glob> restricts the seeds.
+# Parallel version of run_seeded.sh: tools/run_seeded_par.sh [jobs] ; ONLY=<glob> or ONLYFILE=<file of names> restricts the seeds.
 cd /verif
 jobs=${1:-4}
 out=$(mktemp -d)
@@ -20,6 +20,7 @@ export -f one
 ls -d seeded/*/ | while read d; do
   n=$(basename $d); [ -f $d/meta.json ] || continue
   if [ -n "${ONLY:-}" ] && [[ "$n" != $ONLY ]]; then continue; fi
+  if [ -n "${ONLYFILE:-}" ] && ! grep -qx "$n" "$ONLYFILE"; then continue; fi
   echo $d
 done | xargs -P $jobs -I{} bash -c "one {} $out"
 cat $out/*.tsv > $out/all
